@@ -233,7 +233,7 @@ class Ephem(Speaker):
 
         self.clear_listeners(listeners)
 
-        if dates:
+        if dates is not None:
             for date in dates:
                 orb = self.propagate(date)
 
